@@ -161,7 +161,8 @@ Definition step_resp (s : stepio) : resp := match s with St _ _ r _ => r end.
 
 (* c_panic = Some (St i t r outs): after c_steps, cache i was given r, logged the BUG panic and died; outs are the
    callbacks made before that *)
-Record case := { c_cfgs : list ccfg; c_pre : list out; c_steps : list stepio; c_panic : option stepio }.
+(* c_reqs: after each step, the call the stepped cache made next and the revision it passed (0 for a channel read) *)
+Record case := { c_cfgs : list ccfg; c_pre : list out; c_steps : list stepio; c_reqs : list (phase * N); c_panic : option stepio }.
 
 Definition id_ord (m : rmap) : rmap := m.
 
@@ -172,12 +173,21 @@ Fixpoint steps_agree (steps : list stepio) (mo : list (list out)) : bool :=
   | _, _ => false
   end.
 
+Definition phase_eqb (a b : phase) : bool :=
+  match a, b with PList, PList | PWatch, PWatch | PEvents, PEvents => true | _, _ => false end.
+Fixpoint reqs_agree (mo : list (list out * (phase * N))) (reqs : list (phase * N)) : bool :=
+  match mo, reqs with
+  | [], [] => true
+  | (_, (p, r)) :: m', (p', r') :: q' => phase_eqb p p' && N.eqb r r' && reqs_agree m' q'
+  | _, _ => false
+  end.
+
 Definition check_case (c : case) : bool * bool :=
   let gs := map cfg_of (c_cfgs c) in
   let '(s0, pre) := syncer_init gs in
-  (match syncer_run id_ord gs s0 (c_steps c) with
+  (match syncer_run_obs id_ord gs s0 (c_steps c) with
    | Some (s, mo) =>
-       outs_eqb pre (c_pre c) && steps_agree (c_steps c) mo &&
+       outs_eqb pre (c_pre c) && steps_agree (c_steps c) (map fst mo) && reqs_agree mo (c_reqs c) &&
        match c_panic c with
        | None => true
        | Some (St i t r outs) =>
